@@ -267,6 +267,51 @@ Proof.
 Qed.
 Print Assumptions C11_renumbering_equivariant.
 
+(* ... and GLOBALLY: sigma f := rank of the renumbered key of entity f in the entity array of the renumbered mesh is a BIJECTION of
+   the entity numbers with  t2f' = sigma o t2f  (t2e likewise), the same number of entities, vertex sets mapped by p, the cells
+   containing sigma f = the cells containing f, f2t'[1][sigma f] = -1 iff f2t[1][f] = -1 (boundary facets mapped onto boundary
+   facets); composed with any permutation of the cells: a cell that is the renumbered copy of cell e has row entries sigma(t2f[s][e]). *)
+Theorem C11_renumbering_global_bijection :
+  forall (k : kind) (idx : list (list nat)) (p : nat -> nat) (cells cells2 : list (list nat)),
+    idx = k_facets k \/ idx = k_edges k ->
+    (forall a b, p a = p b -> a = b) ->
+    Forall (fun c => NoDup c /\ length c = k_nnodes k) cells ->
+    Permutation.Permutation (map (map p) cells) cells2 ->
+    let cells' := map (map p) cells in
+    let sg := sigma p cells idx in
+    length (entities true cells2 idx) = length (entities true cells idx) /\
+    (forall f, f < length (entities true cells idx) -> sg f < length (entities true cells2 idx)) /\
+    (forall f g, f < length (entities true cells idx) -> g < length (entities true cells idx) -> sg f = sg g -> f = g) /\
+    (forall f', f' < length (entities true cells2 idx) -> exists f, f < length (entities true cells idx) /\ sg f = f') /\
+    (forall s e e2, s < length idx -> e < length cells -> e2 < length cells2 -> nth e2 cells2 [] = map p (nth e cells []) ->
+       t2f_at cells2 idx s e2 = sg (t2f_at cells idx s e)) /\
+    (forall f v, f < length (entities true cells idx) ->
+       (In v (nth (sg f) (entities true cells2 idx) []) <-> exists u, In u (nth f (entities true cells idx) []) /\ v = p u)) /\
+    (forall f, f < length (entities true cells idx) ->
+       (forall e1, e1 < length cells -> (contains cells' idx (sg f) e1 <-> contains cells idx f e1)) /\
+       (slots_injective cells idx ->
+        (row1 (f2t_of cells' idx) (sg f) = (-1)%Z <-> row1 (f2t_of cells idx) f = (-1)%Z))).
+Proof.
+  intros k idx p cells cells2 Hidx Hinj Hc HP cells' sg.
+  destruct (shape_every_cell_type k idx Hidx) as [HB HS].
+  assert (Hlen : Forall (fun c => length c = k_nnodes k) cells).
+  { rewrite Forall_forall in *. intros c Hin. now apply Hc. }
+  assert (Hshape : forall ix c, In ix idx -> In c cells -> shape (slotv ix c)).
+  { intros ix c Hix Hcin. rewrite Forall_forall in Hc. destruct (Hc c Hcin) as [N L]. now apply HS. }
+  destruct (cell_order_invariant cells' cells2 idx HP) as [EE Hcell]. rewrite EE.
+  destruct (sigma_bijection p Hinj cells idx (k_nnodes k) Hlen HB Hshape) as [B [I O]].
+  split; [exact (sigma_length p Hinj cells idx (k_nnodes k) Hlen HB Hshape)|].
+  split; [exact B|]. split; [exact I|]. split; [exact O|]. split; [|split].
+  - intros s e e2 Hs He He2 Hn.
+    assert (E1 : e < length cells') by (unfold cells'; now rewrite map_length).
+    assert (E2 : nth e2 cells2 [] = nth e cells' []) by (unfold cells'; rewrite (nth_map_d (map p) cells e [] []) by exact He; exact Hn).
+    rewrite (Hcell s e e2 Hs E1 He2 E2).
+    now apply (sigma_t2f p Hinj cells idx (k_nnodes k) Hlen HB Hshape).
+  - intros f v Hf. now apply (sigma_vertices p Hinj cells idx (k_nnodes k) Hlen HB Hshape).
+  - intros f Hf. now apply (sigma_f2t p Hinj cells idx (k_nnodes k) Hlen HB Hshape).
+Qed.
+Print Assumptions C11_renumbering_global_bijection.
+
 (* ---- non-vacuity: two triangles sharing the edge {1,2}, one renumbered quadrilateral pair, a tetrahedron *)
 Example C11_two_triangles :
   let tb := derive tri_sortf 4 [[0; 1; 2]; [3; 2; 1]] tri_facets in
